@@ -9,6 +9,8 @@ import (
 	"encoding/json"
 	"fmt"
 	"strings"
+	"sync"
+	"sync/atomic"
 	"unicode/utf8"
 
 	log "github.com/go-spring/log"
@@ -343,6 +345,63 @@ func c09Worker(w *W) {
 		}
 		w.Res.DistinctCount = st.nontriv
 		w.Sample(map[string]any{"space": fmt.Sprintf("boundary alphabet {% x}, lengths %d..%d", c09boundary, minLen, L)})
+	case "conc":
+		// the escaper under concurrency: G goroutines escape the same strings at once, each into its own buffer; every
+		// output must be byte-identical to the output the string produced when escaped alone (state shared between
+		// calls - scratch buffers, templates, tables built lazily - would show here and nowhere in the sequential spaces)
+		r := w.Rng()
+		n := int(w.Spec.N)
+		ins := make([]string, n)
+		outs := make([][]byte, n)
+		pool := append(append([]byte{}, c09boundary...), 0x01, 0x02, 0x0b, 0x0c, 0x0e, 0x1e, 0x1f, '"', '\\', '\n', '\r', '\t', 'a', 'b', ' ', 0xe2, 0x82, 0xac, 0xf0, 0x9f, 0x98, 0x80)
+		for i := range ins {
+			l := 1 + r.IntN(40)
+			if i%10 == 0 {
+				l = 100 + r.IntN(400)
+			}
+			b := make([]byte, l)
+			for k := range b {
+				if r.IntN(3) == 0 {
+					b[k] = byte(r.IntN(256))
+				} else {
+					b[k] = pool[r.IntN(len(pool))]
+				}
+			}
+			ins[i] = string(b)
+			if why := st.check(ins[i]); why != "" {
+				report(ins[i], why, "random")
+			}
+			var buf bytes.Buffer
+			log.WriteLogString(&buf, ins[i])
+			outs[i] = append([]byte(nil), buf.Bytes()...)
+		}
+		G := w.ArgInt("g", 16)
+		var wg sync.WaitGroup
+		var bad atomic.Int64
+		for g := 0; g < G; g++ {
+			wg.Add(1)
+			go func(g int) {
+				defer wg.Done()
+				gr := newRng(w.Spec.Seed, uint64(w.Spec.Shard)*131+uint64(g)+909)
+				var buf bytes.Buffer
+				for rep := 0; rep < 6*n && bad.Load() == 0; rep++ {
+					i := gr.IntN(n)
+					buf.Reset()
+					log.WriteLogString(&buf, ins[i])
+					if !bytes.Equal(buf.Bytes(), outs[i]) {
+						if bad.Add(1) == 1 {
+							w.Violate("C09:concurrent:differs-from-alone", fmt.Sprintf("%d goroutines escaping at once: input %x produced %q, alone it produced %q", G, ins[i], trunc(buf.String(), 300), trunc(string(outs[i]), 300)), map[string]any{"hex": fmt.Sprintf("%x", ins[i]), "goroutines": G})
+						}
+					}
+				}
+			}(g)
+		}
+		wg.Wait()
+		w.Count("concurrent_escapes_compared", int64(6*n*G))
+		if bad.Load() == 0 {
+			w.Distinct(fmt.Sprintf("concurrent|G=%d|%s", G, w.Spec.Flavour))
+		}
+		w.Sample(map[string]any{"kind": "concurrent", "goroutines": G, "strings": n, "escapes_per_goroutine": 6 * n})
 	case "random":
 		st.useJSON = true
 		r := w.Rng()
@@ -598,7 +657,18 @@ func init() {
 			for i := 0; i < 4; i++ {
 				specs = append(specs, d.NewSpec("inject", fmt.Sprintf("inj-%d", i), i, 4))
 			}
-			d.RunWorkers(specs, 16)
+			for i := 0; i < 3; i++ {
+				s := d.NewSpec("conc", fmt.Sprintf("conc-%d", i), i, 3)
+				s.N = d.Pick(4000, 40000)
+				s.Args["g"] = fmt.Sprint([]int{16, 4, 8}[i])
+				if i == 2 {
+					s.Flavour = "race"
+					s.N = d.Pick(1500, 8000)
+				}
+				specs = append(specs, s)
+			}
+			outs := d.RunWorkers(specs, 16)
+			d.raceVerdict(outs)
 			if !d.Quick() {
 				d.runFuzz("FuzzC09Escape", 3_000_000, "C09:fuzz")
 			}
